@@ -95,7 +95,13 @@ class Atomizer:
 
     def lin(self, e):
         e = self.inline(e)
-        return lin_of_ast(e, lambda x: Lin.sym(ast.unparse(x)))
+
+        def sym(x):
+            k = ast.unparse(x)
+            for a, b in self.rewrite:
+                k = k.replace(a, b)
+            return Lin.sym(k)
+        return lin_of_ast(e, sym)
 
     # -- formulas ---------------------------------------------------------------------
     def formula(self, e):
